@@ -79,7 +79,7 @@ def shards(tier):
 
 def floors(tier):
     return {"cases": 20000, "insertions": 20000, "insertions_depth2plus": 1000, "would_fail_values": 8000,
-            "next_to_ref": 1000, "base_uri_cases": 100, "own_id_next_to_ref": 100, "foreign_sibling_matrix_cases": 50000, "root_ref_cases": 500, "embedded_lookalike_cases": 2000, "empty_or_hash_ref_cases": 1000, "cross_document_chain_cases": 5000, "deep_foreign_value_cases": 1000, "warnings_compared": 20000, "foreign_names_spelled_like_escaped_tokens": 1500, "cases_with_errors": 5000, "foreign_names_used": 150,
+            "next_to_ref": 1000, "base_uri_cases": 100, "own_id_next_to_ref": 100, "foreign_sibling_matrix_cases": 50000, "root_ref_cases": 500, "embedded_lookalike_cases": 2000, "empty_or_hash_ref_cases": 1000, "cross_document_chain_cases": 5000, "deep_foreign_value_cases": 1000, "duplicated_subschema_cases": 2000, "warnings_compared": 20000, "foreign_names_spelled_like_escaped_tokens": 1500, "cases_with_errors": 5000, "foreign_names_used": 150,
             "foreign_id_in_store_document_cases": 100, "check_schema_compared": 5000, "many_foreign_member_cases": 100, "module_validate_with_foreign_dollar_schema": 5000}
 
 
@@ -533,6 +533,35 @@ def escaped_spelling_names(ctx, d, rng):
                     compare(ctx, d, S, S2, log, inst)
 
 
+def duplicated_subschemas(ctx, d, rng):
+    """A list-valued applicator holding the SAME subschema several times (written out twice, or the same reference twice): a
+    foreign member in one of the copies changes nothing about what each copy reports."""
+    kw = "extends" if d == 3 else "allOf"
+    A_s = [{"type": "integer"}, {"minimum": 5, "type": "number"}, {"$ref": "#/definitions/t"}, {"properties": {"a": {"type": "string"}}}, {"items": {"type": "null"}}]
+    for A in A_s:
+        for name, val in (("title", "t"), ("x-vf", 1), ("$comment", "c"), ("description", {"type": "null"}), ("const" if d <= 4 else "divisibleBy", 3)):
+            if "$ref" in A and d == 3 and name == "description":
+                pass
+            for which in (0, 1, 2):
+                copies = [dict(A), dict(A), dict(A)]
+                S = {kw: copies, "definitions": {"t": {"type": "string"}}}
+                c2 = [dict(A), dict(A), dict(A)]
+                c2[which] = with_key(rng, c2[which], name, val)
+                S2 = {kw: c2, "definitions": {"t": {"type": "string"}}}
+                others = [{"anyOf": copies}, {"oneOf": copies[:2]}] if d != 3 else [{"type": copies + ["null"]}]
+                log = [{"path": [kw, which], "name": name, "would_fail": True, "next_to_ref": "$ref" in A, "depth": 1}]
+                for inst in (1, 7, "s", {"a": 1}, [1], None, 2.5):
+                    ctx.count("duplicated_subschema_cases")
+                    compare(ctx, d, S, S2, log, inst)
+                for O in others:
+                    k2 = next(iter(O))
+                    O2 = {k2: list(O[k2])}
+                    O2[k2][0] = with_key(rng, dict(O2[k2][0]), name, val) if isinstance(O2[k2][0], dict) else O2[k2][0]
+                    for inst in (1, "s", None):
+                        ctx.count("duplicated_subschema_cases")
+                        compare(ctx, d, dict(O, definitions={"t": {"type": "string"}}), dict(O2, definitions={"t": {"type": "string"}}), log, inst)
+
+
 def _chain_store():
     far = "http://far.example/lib/defs.json"
     return {far: {"definitions": {"t": {"$ref": "leaf.json"}, "u": {"items": {"$ref": "leaf.json"}},
@@ -644,6 +673,7 @@ def run(ctx):
             cross_document_chains(ctx, d, rr)
             deep_foreign_values(ctx, d)
             escaped_spelling_names(ctx, d, rr)
+            duplicated_subschemas(ctx, d, rr)
             root_ref_cases(ctx, d, rr)
             embedded_lookalikes(ctx, d, rr)
             foreign_id_in_store_documents(ctx, d)
